@@ -67,4 +67,4 @@ META = dict(
     technique="runtime monitoring: reference-model oracle after every operation + destructor counters + ASan/UBSan + allocator balance",
 )
 
-CFG["rule"] += (" " + 'Additions: stages intkeys_* (harness/c18_intkeys.c): linked hash table and FIFO/LIFO/LRU caches keyed by small integers stored in the pointer (key 0 = NULL), compared with a reference ordered list after every operation; every 1024th such case fills a cache of 32 769-131 073 entries past its maximum; stale aws_last_error()/errno.')
+CFG["rule"] += (" " + 'Additions: stages intkeys_* (harness/c18_intkeys.c): linked hash table and FIFO/LIFO/LRU caches keyed by small integers stored in the pointer (key 0 = NULL), compared with a reference ordered list after every operation; every 1024th such case fills a cache of 32 769-131 073 entries past its maximum; stale aws_last_error()/errno. Half of the intkeys cases also store NULL as a value; destructor calls with NULL are counted against the displaced NULL-valued entries.')
